@@ -248,8 +248,23 @@ func (g *didGen) buildDoc(id string, k int, shape int) (string, *didtypes.DIDDoc
 		relRef("capinv", vmid)
 		relDed("keyagree", id+"#ka", didtypes.X25519_2019, g.keys[(k+2)%len(g.keys)].b58)
 		l := didtypes.JSONStringOrStrings{id}
+		if len(g.dids) > 1 && g.r.Chance(50) {
+			// another registered DID as (co-)controller: the property of the document gives that DID no write access here
+			other := g.dids[g.r.Intn(len(g.dids))]
+			if other != id {
+				if g.r.Bool() {
+					l = didtypes.JSONStringOrStrings{id, other}
+				} else {
+					l = didtypes.JSONStringOrStrings{other}
+				}
+			}
+		}
 		doc.Controller = &l
-		g.add("DCTRL %s %s", ref, toks(id))
+		line := "DCTRL " + ref
+		for _, c := range l {
+			line += " " + toks(c)
+		}
+		g.add("%s", line)
 		ep := "https://example.org"
 		if genK3 && g.r.Chance(15) {
 			ep = pick(g.r, []string{"https://\xff", "\xc3", "caf\xc3\xa9"}) // the first two are not UTF-8 (K3)
@@ -405,7 +420,16 @@ func (g *didGen) msg() (string, string) {
 			}
 		}
 		ref, doc, vmid := g.buildDoc(docID, key, g.shape())
-		sig := g.sign(key, doc, 0, pick(g.r, []int{0, 0, 0, 0, 0, 0, 0, 1, 2, 3}))
+		createSeq := uint64(0)
+		if g.dead[did] && g.r.Chance(50) {
+			// on a tombstone: the last controlling key signs over the tombstone's own sequence ("re-activation")
+			key, createSeq = g.curKey[did], g.seq[did]
+			ref, doc, vmid = g.buildDoc(docID, key, pick(g.r, []int{0, 1, 5}))
+			if g.curVM[did] != "" && g.r.Bool() {
+				vmid = g.curVM[did]
+			}
+		}
+		sig := g.sign(key, doc, createSeq, pick(g.r, []int{0, 0, 0, 0, 0, 0, 0, 1, 2, 3}))
 		if g.r.Chance(4) {
 			ref = "-" // no document at all
 		}
@@ -471,6 +495,16 @@ func (g *didGen) msg() (string, string) {
 		}
 		if ids := methodIDs(g.curDoc[did]); len(ids) > 0 && !directed && g.r.Chance(25) {
 			vmid = pick(g.r, ids) // another method of the stored document is named: only its own key, if listed under authentication, may sign
+		}
+		if cd := g.curDoc[did]; cd != nil && cd.Controller != nil && g.r.Chance(30) {
+			// a DID the stored document names as controller signs with ITS key, method id and sequence: not a proof by a key
+			// registered under the DID being written
+			for _, c := range *cd.Controller {
+				if c != did && g.active[c] {
+					vmid = g.curVM[c]
+					sig = g.sign(g.curKey[c], signData, g.seq[c], 0)
+				}
+			}
 		}
 		line := joinSp("did.Update", toks(did), ref, toks(vmid), tok(sig), toks(from))
 		if tamperU == 0 && g.authorised(g.curDoc[did], vmid, signer) && seq == g.seq[did] && signData == doc && docID == did && g.active[did] && doc.Valid() {
